@@ -151,6 +151,8 @@ Definition reconcile_bg (sp : ro_spec) (st : ro_status) (w : wl) (br : option br
       | _ => reconcile sp st w br
       end
     | RpDisabling =>
+      if wl_exists w && negb (wl_consistent w)
+      then ROut {| o_status := Some s; o_br := br; o_remove_progress_anno := false; o_finalizer := fin; o_requeue := true; o_err := false |} else
       let '(done, s1, br', anno) := do_finalising_bg sp s w br FrDisabled false in
       ROut {| o_status := Some (if done then set_rphase s1 RpDisabled else s1); o_br := br'; o_remove_progress_anno := anno; o_finalizer := fin;
               o_requeue := negb done; o_err := false |}
